@@ -102,7 +102,59 @@ def make_motif(a, fs, rng):
     d, s = rng.choice(files)
     data = fs.entries[d][s][1]
     steps = []
-    first = rng.choice(["copy-same-name", "replace-same-size", "delete", "delete", "move-disk", "empty-disk", "silent+delete"])
+    first = rng.choice(["copy-same-name", "replace-same-size", "delete", "delete", "move-disk", "empty-disk", "silent+delete", "bad-stripe+user-change"])
+    if first == "bad-stripe+user-change":
+        # a stripe is marked bad by scrub (the cause is gone again afterwards), the user goes on working on a file that has a
+        # block in it, then fix -e / -b runs: it must not write the changed file, and whatever it does to the parity of the
+        # stripe must still be the parity of the SYNCED contents (the stripe is still recorded as synced)
+        hold = {}
+
+        def h1():
+            from .. import dmg
+            c_ = a.load_content()
+            n2i = {nm.encode(): i for i, nm in enumerate(a.disk_names)}
+            cands = [(pos, [e for e in ents if e[1] == "file" and e[4] == cnt.BLK]) for pos, ents in c_.stripe_map().items()]
+            cands = [(pos, fe) for pos, fe in cands if fe and all(e[1] != "file" or e[4] == cnt.BLK for e in c_.stripe_map()[pos])]
+            if not cands:
+                raise KeyError("no synced stripe")
+            pos, fe = rng.choice(cands)
+            e1 = rng.choice(fe)
+            e2 = rng.choice(fe)
+            d1_, d2_ = n2i[c_.disk_name(e1[0])], n2i[c_.disk_name(e2[0])]
+            if e2[2].sub not in fs.entries[d2_] or fs.entries[d2_][e2[2].sub][0] != "file":
+                raise KeyError("model does not know the file")
+            p1 = fs.path(d1_, e1[2].sub)
+            st_ = os.lstat(p1)
+            with open(p1, "rb") as fh:
+                orig = fh.read()
+            if dmg.damage_file_block(a, c_, e1[2], e1[3], rng, rng.choice(["bit", "byte", "block"])) != "ok":
+                raise KeyError("block not damaged")
+            hold["heal"] = (p1, orig, st_.st_atime_ns, st_.st_mtime_ns)
+            hold["user"] = (d2_, e2[2].sub, e2[3])
+
+        def h2():
+            p1, orig, at_, mt_ = hold["heal"]
+            with open(p1, "r+b") as fh:
+                fh.write(orig)
+            os.utime(p1, ns=(at_, mt_))
+            d2_, sub2, bi = hold["user"]
+            old = fs.entries[d2_][sub2][1]
+            lo = bi * a.bs
+            hi = min(len(old), lo + a.bs)
+            cut = rng.randint(lo, max(lo, hi - 1))
+            new = old[:cut] + A.gen_bytes(rng, rng.randint(1, max(1, hi - cut)), "rand")
+            new = new + old[len(new):]
+            if rng.random() < 0.5:
+                new += A.gen_bytes(rng, rng.randint(1, 2 * a.bs), "rand")
+            if new == old:
+                new = old + b"x"
+            fs.write(d2_, sub2, new, keep_inode=True)
+        steps.append(("cmd", "sync", ["-E", "-Z"]))
+        steps.append(("fs", h1, "silent corruption of one synced block"))
+        steps.append(("cmd", "scrub", ["-p", "full"]))
+        steps.append(("fs", h2, "corruption undone (the stripe stays marked bad); the user rewrites a block of a file of that stripe in place"))
+        steps.append(("cmd", "fix", [rng.choice(["-e", "-e", "-b"])]))
+        return steps
     if first == "silent+delete":
         # one sync has to deal at once with a silently corrupted synced block and a pending deletion on another disk of the
         # same stripe (with enough parity it repairs the block on the fly and must still produce the parity of what remains)
